@@ -445,6 +445,10 @@ pub fn run(cfg: &Cfg) -> Report {
   }
   variants_family(cfg, &mut rep, &mut model, &mut rng);
   server_family(cfg, &mut rep, &mut model, &mut rng, &alpha);
+  {
+    let mut r = rng.fork();
+    load_order_family(cfg, &mut rep, &mut model, &mut r, &alpha);
+  }
   rep.exhaustive = true;
   rep.model_requests = model.requests;
   rep
@@ -762,6 +766,149 @@ fn variants_family(cfg: &Cfg, rep: &mut Report, model: &mut Model, rng: &mut Rng
 // ------------------------------------------------------------------------------------------
 // family `server`: the same histories through the HTTP handlers of server/src/server.rs
 // ------------------------------------------------------------------------------------------
+
+// ------------------------------------------------------------------------------------------
+// family `load-order`: Workspace::new(dir) on directories whose files are the same documents under different file
+// names (the order in which WalkDir delivers the files is the file system's: other names, other order)
+// ------------------------------------------------------------------------------------------
+
+const SIG_LOAD_DISTINCT: &str = "load-order: with pairwise distinct namespaces and names the models evaluable after Workspace::new(dir) are not exactly the model files that build";
+const SIG_LOAD_MODEL: &str = "load-order: the models evaluable after Workspace::new(dir) are those of no order of reading the files in the model of load_and_deploy_models";
+const SIG_LOAD_ORDER: &str = "load-order: Workspace::new(dir) on the same files under other names gives another set of evaluable models although no two share a namespace or a name";
+
+fn permutations(n: usize) -> Vec<Vec<usize>> {
+  if n == 0 {
+    return vec![vec![]];
+  }
+  let mut out = vec![];
+  for p in permutations(n - 1) {
+    for i in 0..=p.len() {
+      let mut q = p.clone();
+      q.insert(i, n - 1);
+      out.push(q);
+    }
+  }
+  out
+}
+
+fn load_order_family(cfg: &Cfg, rep: &mut Report, model: &mut Model, rng: &mut Rng, alpha: &Alphabet) {
+  let has_bad = alpha.bad_body.is_some();
+  let d = |ns: &str, n: &str, b: bool| Some(MDef { ns: ns.into(), name: n.into(), builds: b || !has_bad });
+  // the pool: distinct models, clashing namespaces, clashing names, identical keys, non-building ones, a file that is no model
+  let pool: Vec<Option<MDef>> = vec![d("ns1", "n1", true), d("ns2", "n2", true), d("ns3", "n3", false), d("ns4", "n4", true), d("ns1", "n5", true), d("ns5", "n1", true), d("ns1", "n1", false), d("ns2", "n6", false), None];
+  let probes: Vec<String> = ["n1", "n2", "n3", "n4", "n5", "n6"].iter().map(|s| s.to_string()).collect();
+  let n_sets = if cfg.tier == "thorough" { 400 } else { 60 };
+  let base = std::env::temp_dir().join(format!("c17-load-{}-{}", std::process::id(), cfg.seed));
+  let mut sets: Vec<Vec<Option<MDef>>> = vec![
+    vec![pool[0].clone(), pool[1].clone()],
+    vec![pool[0].clone(), pool[4].clone()],
+    vec![pool[0].clone(), pool[5].clone()],
+    vec![pool[0].clone(), pool[6].clone()],
+    vec![pool[6].clone(), pool[0].clone(), None],
+    vec![pool[0].clone(), pool[1].clone(), pool[2].clone(), None],
+  ];
+  for _ in 0..n_sets {
+    let k = 2 + rng.below(3) as usize;
+    let distinct_only = rng.chance(1, 2);
+    let mut set: Vec<Option<MDef>> = vec![];
+    while set.len() < k {
+      let c = rng.pick(&pool).clone();
+      let clash = |a: &MDef, b: &MDef| a.ns == b.ns || a.name == b.name;
+      if let Some(m) = &c {
+        if distinct_only && set.iter().flatten().any(|x| clash(x, m)) {
+          continue;
+        }
+        if set.iter().flatten().any(|x| x == m) {
+          continue;
+        }
+      }
+      set.push(c);
+    }
+    sets.push(set);
+  }
+  for (si, set) in sets.iter().enumerate() {
+    let k = set.len();
+    let models: Vec<&MDef> = set.iter().flatten().collect();
+    let distinct = models.iter().enumerate().all(|(i, a)| models.iter().skip(i + 1).all(|b| a.ns != b.ns && a.name != b.name));
+    let perms = permutations(k);
+    // the model's answer for every order of reading
+    let doc = |x: &Option<MDef>| match x {
+      Some(m) => format!("(m {} {} {})", m.ns, m.name, m.builds),
+      None => "x".to_string(),
+    };
+    let reqs: Vec<String> = perms.iter().map(|p| format!("(c17 load ({}) ({}))", p.iter().map(|&i| doc(&set[i])).collect::<Vec<_>>().join(" "), probes.join(" "))).collect();
+    let answers = model.ask_batch(&reqs);
+    let m_cans: Vec<Vec<String>> = answers
+      .iter()
+      .map(|a| {
+        let p = Sexp::parse(a);
+        let mut v: Vec<String> = p.as_ref().and_then(|x| x.as_list()).and_then(|l| l.get(1)).and_then(|c| c.as_list()).map(|l| l.iter().skip(1).filter_map(|x| x.as_atom().map(|s| s.to_string())).collect()).unwrap_or_default();
+        v.sort();
+        v
+      })
+      .collect();
+    let mut seen: Vec<Vec<String>> = vec![];
+    // the same documents under file names assigned by every permutation (quick: at most 6 of them)
+    for (pi, p) in perms.iter().enumerate().take(if cfg.tier == "thorough" { 24 } else { 6 }) {
+      let dir = base.join(format!("s{}p{}", si, pi));
+      let _ = std::fs::create_dir_all(dir.join("sub"));
+      for (slot, &i) in p.iter().enumerate() {
+        let text = match &set[i] {
+          Some(m) => model_xml(&m.ns, &m.name, if m.builds { GOOD_BODY } else { alpha.bad_body.unwrap_or(GOOD_BODY) }),
+          None => "this is not a model".to_string(),
+        };
+        // names of different lengths and letters, one of them in a sub-directory
+        let name = match slot {
+          0 => dir.join("a.dmn"),
+          1 => dir.join(format!("zz{}.dmn", pi)),
+          2 => dir.join("sub").join("m.dmn"),
+          _ => dir.join(format!("{}-model-{}.dmn", slot, pi * 7)),
+        };
+        let _ = std::fs::write(name, text);
+      }
+      let dirc = dir.clone();
+      let probes_c = probes.clone();
+      let got = crate::util::guarded(move || {
+        let w = Workspace::new(Some(dirc));
+        let mut can: Vec<String> = probes_c.iter().filter(|n| w.evaluate_invocable(n, "D", &FeelContext::default()).is_ok()).cloned().collect();
+        can.sort();
+        can
+      });
+      let _ = std::fs::remove_dir_all(&dir);
+      let input = format!("Workspace::new(dir) with the files [{}] written in the order {:?}", set.iter().map(doc).collect::<Vec<_>>().join(" "), p);
+      rep.case(&format!("load-order:{}:{}", si, pi), k >= 2);
+      rep.hit(if distinct { "load-order:distinct" } else { "load-order:clash" });
+      let got = match got {
+        Ok(g) => g,
+        Err(e) => {
+          rep.disagree(Kind::ImplVsSpec, "load", "load-order: Workspace::new(dir) panics", &input, &e, "a workspace");
+          continue;
+        }
+      };
+      if distinct {
+        // written-out expectation: exactly the model files that build
+        let mut want: Vec<String> = models.iter().filter(|m| m.builds).map(|m| m.name.clone()).collect();
+        want.sort();
+        if got != want {
+          rep.disagree(Kind::ImplVsSpec, "load_order_independent", SIG_LOAD_DISTINCT, &input, &format!("{:?}", got), &format!("{:?}", want));
+        }
+        if let Some(first) = seen.first() {
+          if *first != got {
+            rep.disagree(Kind::ImplVsSpec, "load_order_independent", SIG_LOAD_ORDER, &input, &format!("{:?}", got), &format!("{:?}", first));
+          }
+        }
+      }
+      if !m_cans.iter().any(|c| *c == got) {
+        rep.disagree(Kind::ImplVsModel, "load", SIG_LOAD_MODEL, &input, &format!("{:?}", got), &format!("one of {:?}", m_cans));
+      }
+      seen.push(got);
+    }
+    if distinct && m_cans.iter().any(|c| *c != m_cans[0]) {
+      rep.disagree(Kind::ImplVsModel, "load", "load-order: the model of load depends on the order for distinct keys (contradicts load_order_independent)", &reqs.join(" "), &format!("{:?}", m_cans), "one answer");
+    }
+  }
+  let _ = std::fs::remove_dir_all(&base);
+}
 
 fn show_op(op: &Op) -> String {
   match op {
